@@ -210,3 +210,25 @@ def view_world(world, limit=60):
     if len(world["nodes"]) > limit:
         out.append("... %d more" % (len(world["nodes"]) - limit))
     return out
+
+
+_RESERVED = None
+
+
+def reserved_words():
+    """Words that fselect's lexer/parser may take for a column, function or keyword even when quoted
+    (a C02 matter, not claimed here): literals in generated conditions avoid them."""
+    global _RESERVED
+    if _RESERVED is None:
+        import re
+        from .core import REPO
+        words = {"log", "ln", "exp", "abs", "bin", "hex", "oct", "day", "month", "year", "dow", "min", "max", "avg", "sum", "count", "size", "name", "path", "ext", "dir",
+                 "mode", "user", "group", "uid", "gid", "true", "false", "and", "or", "not", "from", "where", "order", "by", "limit", "into", "select", "like", "between"}
+        for f in ("field.rs", "function.rs", "lexer.rs", "operators.rs", "query.rs"):
+            try:
+                with open(os.path.join(REPO, "src", f)) as fh:
+                    words |= set(re.findall(r'"([a-z0-9_]+)"', fh.read()))
+            except OSError:
+                pass
+        _RESERVED = words
+    return _RESERVED
